@@ -101,9 +101,41 @@ let run_pspmv cid t =
     | k -> failwith ("kind " ^ k) in
   pr_ranks cid "V" qs_str res
 
+(* cid tapchk P three_step {n cols}xP {n ids}xP big  then per rank:
+     recv_size n L R.. S.. SS (R.. S..|none) G R.. S.. RR R.. S..   *)
+let read_parcomm t =
+  expect t "R"; let r = read_data t in expect t "S"; let s = read_data t in (r, s)
+let run_tapchk cid t =
+  let p = next_int t in
+  let three = next_int t = 1 in
+  let colmaps = take p (fun () -> read_list t) in
+  let ids = take p (fun () -> read_list t) in
+  let big = next_int t in
+  let idx_of (r : cdata) = match r.idx with Some l -> nats l | None -> [] in
+  let ranks = take p (fun () ->
+      expect t "recv_size"; let n = next_int t in
+      expect t "L"; let (lr, ls) = read_parcomm t in
+      expect t "SS";
+      let spk = (match t.rest with
+          | "none" :: _ -> ignore (next t); nopkg
+          | _ -> let (sr, ss) = read_parcomm t in pkg_of sr ss) in
+      expect t "G"; let (gr, gs) = read_parcomm t in
+      expect t "RR"; let (rr, rs) = read_parcomm t in
+      { tL = pkg_of lr ls; tL_pos = idx_of lr; tS = spk; tG = pkg_of gr gs; tR = pkg_of rr rs; tR_pos = idx_of rr;
+        t_size = nat_of_int n }) in
+  let tw = { three_step = three; t_ranks = ranks } in
+  let ncol = List.map nats colmaps and nids = List.map nats ids in
+  Printf.printf "%s CHK tapfwd %s\n" cid (b2s (tap_fwd_ok tw nids ncol (nat_of_int big)));
+  let pr key f = Printf.printf "%s %s %s\n" cid key
+      (String.concat " " (List.mapi (fun q _ -> "@" ^ string_of_int q ^ " " ^ str_ints (f q)) ranks)) in
+  pr "FI" (fun q -> tap_forward (-7) tw ids (nat_of_int q));
+  let blk = List.map (List.map (fun g -> (10 * g, 10 * g + 1))) ids in
+  pr "FBI" (fun q -> List.concat (List.map (fun (a, b) -> [a; b]) (tap_forward (-7, -7) tw blk (nat_of_int q))))
+
 let run_case cid t =
   match next t with
   | "commchk" -> run_commchk cid t
+  | "tapchk" -> run_tapchk cid t
   | "pspmv" -> run_pspmv cid t
   | op -> Printf.printf "%s UNSUPPORTED %s\n" cid op
 
